@@ -8,6 +8,7 @@ import (
 	"regexp"
 	"runtime"
 	"sort"
+	"strconv"
 	"strings"
 
 	"verifsim/fmtv2"
@@ -240,6 +241,14 @@ func LeakedGoroutines() []string {
 		st := string(g)
 		if !strings.Contains(st, "buchgr/bazel-remote/v2/") {
 			continue
+		}
+		if cs := sim.Cur(); cs != nil && strings.HasPrefix(st, "goroutine ") {
+			rest := st[len("goroutine "):]
+			if sp := strings.IndexByte(rest, ' '); sp > 0 {
+				if id, err := strconv.ParseInt(rest[:sp], 10, 64); err == nil && cs.Preexisting(id) {
+					continue // leftover of an earlier run in this worker process
+				}
+			}
 		}
 		if strings.Contains(st, "performQueuedEvictions") || strings.Contains(st, "containsWorker") ||
 			strings.Contains(st, "backendproxy.StartUploaders") {
